@@ -46,6 +46,10 @@ def reach(fx, root, pred, depth=4):
             for r_ in local_callees(fx, q, lambda c, f, t: INL.is_private_helper(fx, c.get('res'))):
                 if r_ not in out:
                     todo.append((r_, d_ + 1))
+            # closures written inside the function are part of it
+            for p_ in fx.fns:
+                if p_.startswith(q + '::{closure') and p_ not in seen:
+                    todo.append((p_, d_ + 1))
     return out
 
 
